@@ -339,6 +339,7 @@ func C10(ctx *core.Ctx) {
 		c10EnumMarker(ctx, cc, "C10.R15")
 		c10ResolvedFile(ctx, cc, "C10.R18")
 		globalNodeMutation(ctx, cc, "C10.R19")
+		c10IdentifierForms(ctx, cc)
 	}
 	gs, err := peg.ParseSource(string(src))
 	if err != nil {
